@@ -4,12 +4,12 @@ from __future__ import annotations
 import simplify
 
 ID = "C02"
-THEOREMS = ["simplify_fuel_irrelevant", "simplify_sound_of_checked", "simpCk_refines_simp", "simplifyCk_refines_simplify", "simplifyCk_preserves", "simplifyCk_refines", "simpCk_sound", "sem_attr_first", "sem_called_lambda", "rename_le_both",
+THEOREMS = ["nextArg_fresh", "simplify_start_names_fresh", "argIdx_argName", "simplify_fuel_irrelevant", "simplify_sound_of_checked", "simpCk_refines_simp", "simplifyCk_refines_simplify", "simplifyCk_preserves", "simplifyCk_refines", "simpCk_sound", "sem_attr_first", "sem_called_lambda", "rename_le_both",
             "select_identity_sem", "makeSelect_sem", "makeArgsUnique_counter", "freshNames_mem", "lambdaIsIdentity_sound",
             "rule_select_select", "rule_selectMany_select", "rule_where_select", "rule_where_where", "rule_select_selectMany",
             "rule_where_selectMany", "rule_selectMany_selectMany", "rule_first_attr", "rule_first_sub", "rule_tuple_index", "rule_list_index",
             "denLz_coincide", "denLz_mono", "denLz_wf", "denLz_noPoison", "sel_sel", "whr_whr", "whr_sel", "many_sel", "sel_many", "whr_many", "many_many", "first_sel"]
-LEANCHECKER_MODULES = ["Fadl.Props.C18Fuel", "Fadl.Props.C02Refine", "Fadl.Props.C02Main", "Fadl.Props.C02Sound", "Fadl.Props.C02Called", "Fadl.Lemmas.Rename", "Fadl.Props.C02", "Fadl.Props.C02Rules", "Fadl.Lemmas.Coincide", "Fadl.Lemmas.MonoLz", "Fadl.Lemmas.LazyRules"]  # re-checked by leanchecker in the thorough tier
+LEANCHECKER_MODULES = ["Fadl.Props.C02Fresh", "Fadl.Props.C18Fuel", "Fadl.Props.C02Refine", "Fadl.Props.C02Main", "Fadl.Props.C02Sound", "Fadl.Props.C02Called", "Fadl.Lemmas.Rename", "Fadl.Props.C02", "Fadl.Props.C02Rules", "Fadl.Lemmas.Coincide", "Fadl.Lemmas.MonoLz", "Fadl.Lemmas.LazyRules"]  # re-checked by leanchecker in the thorough tier
 RULE = (
     "seeded sort-directed closed queries over Select/Where/SelectMany/First/Count/len/Sum/Max/Min in function form (half "
     "of them converted from method form by the shipped pass), nested lambdas, called lambdas with positional and keyword "
@@ -31,8 +31,10 @@ EXPLANATION = (
     "guards. Theorem simpCk_refines_simp: whenever simpCk returns a result, simp - the model compared with the code on every "
     "run - returns the same result, so simplify_sound_of_checked states the preservation for the output of simp itself on "
     "every query the checked model accepts. simplify / simplifyCk start, like the code since repo fix e08ed1d, from the counter "
-    "moved past every arg_N name the query holds (nextArg), and the generated family c02-argN renames parameters to "
-    "arg_0 .. arg_5. A query on which a guard fires (a lambda parameter used as a function, "
+    "moved past every arg_N name the query holds (nextArg); theorem nextArg_fresh (Props/C02Fresh.lean): a name generated "
+    "from a counter at or past nextArg e occurs nowhere in e, as a Name or as a lambda parameter (argIdx_argName: the index "
+    "read back from a generated name is the counter it was made from - Nat.repr round trip), simplify_start_names_fresh for "
+    "the names make_args_unique draws there; the generated family c02-argN renames parameters to arg_0 .. arg_5. A query on which a guard fires (a lambda parameter used as a function, "
     "...) is outside the theorem's domain and is covered by the correspondence and "
     "the evaluation oracles only; the evidence counts them per guard (outside-checked-model). Comprehensions are refused "
     "by simpCk (they are lowered by the sugar pass before the simplifier runs; the implementation captures a comprehension "
